@@ -19,7 +19,7 @@ RULE = ('fragment texts built as token lists: a random molecule (or coarse graph
         'atom (independent annotation model). Checked on strip_bonding_descriptors and end-to-end through read_fragments. '
         'distinct = (feature set, #atoms, #descriptors); non-trivial = at least one descriptor or annotation.')
 ASSUMPTIONS = ['slash marks (E/Z) are not part of this workload: they are removed from the text by design (C15)',
-               'the aromatic-bond symbol : is not generated as a descriptor order (documented order symbols are . - = # $)']
+               'the aromatic bond symbol : is generated as a descriptor order on aromatic atoms only (order reported as 1.5)']
 MECHANISMS = [('cgsmiles.read_fragments', 'strip_bonding_descriptors'), ('cgsmiles.read_fragments', 'collect_ring_number')]
 FINDING_FEATURES = {}
 SIZES = {'quick': 24000, 'thorough': 500000}
@@ -35,6 +35,10 @@ def decorate(rng, g, coarse=False):
     for n in g.nodes:
         if rng.random() < p:
             desc[n] = [(rng.choice(KINDS), rng.choice(LABELS), rng.choice(orders)) for _ in range(rng.choice([1, 1, 1, 2, 3, 4]))]
+            if not coarse and g.nodes[n].get('aromatic') and rng.random() < 0.3:
+                # the aromatic bond symbol of SMILES in front of a descriptor on an aromatic atom: c:[$]
+                k = rng.randrange(len(desc[n]))
+                desc[n][k] = (desc[n][k][0], desc[n][k][1], 1.5)
         if rng.random() < 0.2:
             text, attrs = A.random_annotation(rng, 'frag')
             if text:
@@ -57,7 +61,7 @@ def render_atomistic(rng):
             txt = t[1]
             if not txt.startswith('['):
                 d = g.nodes[t[2]]
-                txt = M.atom_text(d, d['hcount'], bracket=True)
+                txt = M.atom_text(d, d['hcount'] if rng.random() < 0.5 else 0, bracket=True)
             tokens.append(('atom', txt[:-1] + ';' + annots[t[2]][0] + ']', t[2], txt))
         else:
             tokens.append(t)
